@@ -31,7 +31,11 @@ check_case = e1common.make_check(e1oracles.oracle_c10)
 
 
 def run(ctx):
-    cases = list(corpus.single_request_cases(["nonresumable"], ("pause", "suspend"), decisions=("resume",)))
+    cases = list(
+        corpus.single_request_cases(
+            ["nonresumable", "nonresumable_toggles", "pause_msg_nonresumable", "defer_msg_nonresumable"], ("pause", "suspend"), decisions=("resume",)
+        )
+    )
     ctx.sweep(cases, check_case)
     ctx.extra["sweep_cases"] = len(cases)
     e1common.generated(ctx, check_case, n=ctx.pick(1500, 30000), profile="nonresumable")
